@@ -22,6 +22,8 @@ CHECKS = {
         "Theorems in lean/Dreye/Props/C02.lean prove for any number of receptors/sources/domain points that A x equals the "
         "capture of the mixed spectrum sum_k x_k source_k (from C01 linearity), that relative capture is K(Q+baseline) for "
         "scalar / per-receptor / matrix K, and that after K := 1/(Q_bg+baseline) the relative capture of the background is 1; "
+        "C19Regrid.lean: the common grid of a domain equalisation has minimum lo, maximum hi and mean step (hi-lo)/k, so the second "
+        "equalisation inside register_system (filters' domain against the common grid) returns the same grid (regrid_stable); "
         "every run compares a real ReceptorEstimator (A, system_capture, capture of the mixture, relative captures, K after "
         "both adaptation calls) with the exact model.",
         "Trusted: Lean kernel; hand-written model of register_system/_relative_capture/adaptation tied to the code by the "
